@@ -65,8 +65,16 @@ func (o *Operations) Update(
 
 		// Like `Delete` and `Move`, refuse to update what is not in the index: the record could never be indexed, and the
 		// next operation would index its own records at the position of this one
-		if _, err := o.metadata.Metadata.GetHeader(context.Background(), file.Path); err != nil {
+		dbhdr, err := o.metadata.Metadata.GetHeader(context.Background(), file.Path)
+		if err != nil {
 			return []*tar.Header{}, err
+		}
+
+		// An update never turns a directory into a file or the other way round (i.e. when the entry was replaced while a file handle to the old one was still open)
+		if dbhdr.Typeflag == tar.TypeDir && !file.Info.IsDir() {
+			return []*tar.Header{}, config.ErrIsDirectory
+		} else if dbhdr.Typeflag != tar.TypeDir && file.Info.IsDir() {
+			return []*tar.Header{}, config.ErrIsFile
 		}
 
 		hdr, err := tar.FileInfoHeader(file.Info, file.Link)
